@@ -111,7 +111,9 @@ fn run_generate(
 
         for path in possible_paths {
             if path.exists() {
-                match GenerateConfig::from_tauri_config(&path) {
+                // The file's settings are validated together with the CLI overrides below,
+                // so that an invalid value in the file is reported instead of dropping the file
+                match GenerateConfig::from_tauri_config_unvalidated(&path) {
                     Ok(Some(loaded_config)) => {
                         config = loaded_config;
                         config_loaded = true;
